@@ -2,6 +2,7 @@ import CpModel.Proto
 import CpModel.Monitor
 import CpModel.BlockWait
 import CpModel.ThreadMgr
+import CpModel.C20Admit
 /-!
   Driver for C20.  One case per line; the output is the snapshot of the shared state before the
   first step and after every step of the schedule, joined by `|`.  A step of a thread that the
@@ -209,11 +210,97 @@ def caseT (f : List String) : Option String :=
   | _ => none
 end T
 
+
+/-! ### trace inclusion modulo stuttering (`CpModel/C20Admit.lean`)
+
+    AM <asIs|fixed> <freq 0|1> <daemon 0|1> <calls | -> <trace>
+    AB <calls | -> <trace>
+    AT <asIs|fixed> <nstops> <scripts | -> <trace>
+        trace = ~<obs0>|<tid>[~<obs>]|<tid>[~<obs>]|…   (an item without `~obs`: observation unchanged)
+        answer: `ok`, or `no <index of the first turn the model cannot follow> <tid> have=<observations
+        the model can show after that turn>` -/
+section A
+open CpModel.C20Admit
+
+/-- `(obs0, [(tid, obs)])` -/
+def parseTrace {τ : Type} (ptid : String → Option τ) (s : String) : Option (String × List (τ × String)) :=
+  match s.splitOn "|" with
+  | [] => none
+  | first :: rest =>
+    if !first.startsWith "~" then none else
+    let o0 := (first.drop 1).toString
+    let rec go : List String → String → List (τ × String) → Option (List (τ × String))
+      | [], _, acc => some acc.reverse
+      | it :: r, last, acc =>
+        match it.splitOn "~" with
+        | [t] => (ptid t).bind fun t' => go r last ((t', last) :: acc)
+        | [t, o] => (ptid t).bind fun t' => go r o ((t', o) :: acc)
+        | _ => none
+    (go rest o0 []).map fun tr => (o0, tr)
+
+def answer {σ τ : Type} (step : σ → τ → σ) (en : σ → τ → Bool) (obs : σ → String) (key : σ → String)
+    (showTid : τ → String) (c0 : σ) (o0 : String) (tr : List (τ × String)) : String :=
+  if admitsInit step en obs key FUEL c0 o0 tr then "ok" else
+  let S0 := if obs c0 == o0 then [c0] else []
+  if S0.isEmpty then s!"no init have={obs c0}" else
+  match failAt step en obs (pruneBy key) FUEL S0 tr 0 with
+  | none => "no ?"
+  | some (i, S) =>
+    match tr[i]? with
+    | none => "no ?"
+    | some (t, _) =>
+      let have_ := pruneBy id ((S.flatMap fun c => chain step en t FUEL c).map obs)
+      s!"no {i} {showTid t} states={S.length} have={",".intercalate (have_.take 6)}"
+
+def showTidM : Monitor.Tid → String
+  | .ctl => "c" | .w i => s!"w{i + 1}"
+
+def admitM (f : List String) : Option String :=
+  match f with
+  | [mode, freq, daemon, calls, trace] => do
+    let m ← parseMode mode
+    let cs ← (splitList calls).mapM parseCall
+    let (o0, tr) ← parseTrace parseTid trace
+    let p : Monitor.Params := { mode := m, freqPos := freq == "1", daemon := daemon == "1" }
+    pure (answer (Monitor.step p) Monitor.enabled Monitor.obsStr Monitor.keyStr showTidM
+      (Monitor.init cs) o0 tr)
+  | _ => none
+
+def showTidB : BlockWait.Tid → String
+  | .main => "m" | .x => "x"
+
+def admitB (f : List String) : Option String :=
+  match f with
+  | [calls, trace] => do
+    let cs ← (splitList calls).mapM parseBCall
+    let (o0, tr) ← parseTrace parseBTid trace
+    pure (answer BlockWait.step BlockWait.enabled (BlockWait.obsStr cs.length) BlockWait.keyStr showTidB
+      (BlockWait.init .started cs) o0 tr)
+  | _ => none
+
+def showTidT : ThreadMgr.Tid → String
+  | .s => "s" | .r i => s!"t{i + 1}"
+
+def admitT (f : List String) : Option String :=
+  match f with
+  | [mode, nstops, scripts, trace] => do
+    let m ← parseTMode mode
+    let n ← nstops.toNat?
+    let ss ← (splitList scripts "/").mapM parseOps
+    let (o0, tr) ← parseTrace parseTTid trace
+    pure (answer (ThreadMgr.step m) ThreadMgr.enabled (ThreadMgr.obsStr (ss.map List.length) n)
+      ThreadMgr.keyStr showTidT (ThreadMgr.init m ss n) o0 tr)
+  | _ => none
+end A
+
 def step (line : String) : String :=
   match Proto.fields line with
   | "M" :: rest => (caseM rest).getD "bad-op"
   | "B" :: rest => (caseB rest).getD "bad-op"
   | "T" :: rest => (caseT rest).getD "bad-op"
+  | "AM" :: rest => (admitM rest).getD "bad-op"
+  | "AB" :: rest => (admitB rest).getD "bad-op"
+  | "AT" :: rest => (admitT rest).getD "bad-op"
   | _ => "bad-op"
 
 end Drv.C20
